@@ -885,19 +885,30 @@ theorem pending_invalid_initial (e : Elem) (parent : ParentGet) (key : String)
     simp [bind, Except.bind, this, pure, Except.pure, Except.map]
     cases h : initialNotComputed.contains key <;> simp_all
 
-/-- (h) a pending value that validates is used like a directly cascaded value, except for the
-keyword `inherit` (see `Witness.C06.var_inherit_on_root`): `_partial` because the full statement
-"for every solved value `v`" is false of the code on the root element. -/
-theorem pending_valid_partial (e e' : Elem) (parent : ParentGet) (key : String) (v : Val)
+/-- (h) a pending value that validates is used exactly like a directly cascaded value, for every
+solved value `v` and with or without a parent — including the keyword `inherit` on the root element,
+which is the initial value (full strength since commit 582f36b moved the root test after the
+substitution; before, `Witness.C06.var_inherit_on_root` refuted it and the theorem was
+`pending_valid_partial` with the hypothesis "`v` is not `inherit`, or not the root"). -/
+theorem pending_valid (e e' : Elem) (parent : ParentGet) (key : String) (v : Val)
     (hc : lookup key e.cascaded = some (.pending (some v)))
-    (hc' : lookup key e'.cascaded = some (.val v))
-    (hv : v.isKw "inherit" = false ∨ parent.isSome = true) :
+    (hc' : lookup key e'.cascaded = some (.val v)) :
     specified e parent key = specified e' parent key := by
   unfold specified specified123 specified4
-  rcases hv with h | h
-  · simp [hc, hc', h]
-  · have h' : parent.isNone = false := by cases parent <;> simp_all
-    simp [hc, hc', h']
+  simp [hc, hc']
+
+/-- … in particular `var()` solved to `inherit` on the root element is the initial value (the input
+of the repaired finding `var-inherit-on-root`, for every property). -/
+theorem pending_inherit_on_root (e : Elem) (key : String)
+    (hc : lookup key e.cascaded = some (.pending (some (.kw "inherit")))) (hpage : key ≠ "page") :
+    specified e none key = initialResult key := by
+  have h := pending_valid e ⟨[(key, .val (.kw "inherit"))], none, [], none⟩ none key (.kw "inherit") hc
+    (by simp [lookup])
+  rw [h]
+  exact inherit_on_root _ key (by simp [lookup]) hpage
+
+example : (specified ⟨[("width", .pending (some (.kw "inherit")))], none, [], none⟩ none "width").toOption
+    = some (.kw "auto", true) := by decide
 
 /-- An element without any cascaded declaration (`AnonymousStyle`): inherited and custom
 properties take the parent's value, every other plain property its initial value. -/
